@@ -95,6 +95,47 @@ def cli_stats_case(ctx):
         shutil.rmtree(tmp, ignore_errors=True)
 
 
+def failed_batch_runs(ctx):
+    """a whole batch fails in a stage that has no per-row guard (the confidence stage raises for the second of three batches):
+    whatever rows come back, the statistics must describe exactly those rows"""
+    import copy
+
+    from synrbl import Balancer
+    from synrbl.confidence_prediction import ConfidencePredictor
+
+    rows = ["C>>C", "CCO>>CC=O", "CC>>CC", "CC(=O)OCC>>CC(=O)O", "CCOCC>>CCO", "CC(=O)C>>CC(O)C"]
+    for fail_at in (1, 0, 2):
+        calls = {"n": 0}
+        orig = ConfidencePredictor.predict
+
+        def predict(self_, *a, **k):
+            i = calls["n"]
+            calls["n"] += 1
+            if i == fail_at:
+                raise RuntimeError("injected failure of the confidence stage")
+            return orig(self_, *a, **k)
+
+        st = {}
+        ConfidencePredictor.predict = predict
+        try:
+            import contextlib
+            import io
+
+            with contextlib.redirect_stderr(io.StringIO()):
+                out = Balancer(n_jobs=1, batch_size=2).rebalance(copy.deepcopy(rows), output_dict=True, stats=st)
+            err = None
+        except Exception as e:
+            out, err = None, "%s: %s" % (type(e).__name__, e)
+        finally:
+            ConfidencePredictor.predict = orig
+        ctx.count("failed-batch-run")
+        if out is None:
+            ctx.violation("run-raises-when-a-batch-fails", {"rows": rows, "failing_batch": fail_at}, err, "synrbl/balancing.py:__rebalance_batch")
+            continue
+        # the rows that came back, whichever they are, against the statistics (reaction_cnt counts the returned rows)
+        statement(ctx, {"inputs": [r.get("input_reaction") for r in out], "out": out, "stats": st, "batch_size": 2, "threshold": 0})
+
+
 def merge_stats_cases(ctx, n):
     """the real `merge_stats` on seeded dictionary pairs (subsets of the seven counters and foreign keys, any order, zero
     values, empty operands): (a) statement — every key of either operand is reported with the sum of the two values, no
@@ -181,6 +222,7 @@ def run(ctx):
             ctx.count("threshold-run")
         cli_stats_case(ctx)
         merge_stats_cases(ctx, 300 if ctx.tier == "quick" else 5000)
+        failed_batch_runs(ctx)
         pipeline.each_config(ctx, lambda name, c: statement(ctx, c))
         ctx.sample({"stats": tr["stats"], "rows": len(tr["out"] or [])})
     return ctx.finish(search)
